@@ -385,6 +385,50 @@ func (h *harness) malform(label string, proto, hver, hflags, op int, body []byte
 	}
 }
 
+// allocDelta: bytes allocated by f (cumulative counter, no collection forced)
+func allocDelta(f func()) uint64 {
+	var a, b runtime.MemStats
+	runtime.ReadMemStats(&a)
+	f()
+	runtime.ReadMemStats(&b)
+	return b.TotalAlloc - a.TotalAlloc
+}
+
+// allocSweep: every 4-byte window of a well-formed body overwritten with 10^6 and 4*10^6 -- count fields of
+// that size on a body of a few dozen bytes.  A parser that sizes an allocation by such a field before it has
+// seen the elements allocates 8..256 MB here (survivable in-process); anything above 64 bytes per received
+// byte + 4 MiB is reported with the input.  The two open allocation findings stay narrow: the partition-key
+// count of a PREPARED body (recognised by walking the body) and nested tuple/UDT arities (tested separately).
+// Returns false when an unexplained allocation was seen: the dense sweep (which also tries 2^31-1) is then
+// not run, because the same site would ask for hundreds of gigabytes and kill the process.
+func (h *harness) allocSweep(label string, proto, hver, hflags, op int, body []byte) bool {
+	ok := true
+	for off := 0; off+4 <= len(body); off++ {
+		for _, v := range []int64{1000000, 4000000} {
+			c := put(body, off, 4, v)
+			alloc := allocDelta(func() { c04lib.Parse(proto, hver, hflags, op, c) })
+			h.o.Count("alloc-count-field(monitor-only)")
+			if alloc <= uint64(64*len(c)+4<<20) {
+				continue
+			}
+			if pkCountTooBig(proto, hflags, op, c) {
+				h.kept["alloc-pk"]++
+				if h.kept["alloc-pk"] <= 5 {
+					h.o.Violate(-1, "allocation", "alloc-prepared-pk-count", fmt.Sprintf("a %d-byte PREPARED body (%s) with the partition-key count set to %d made parseFrame allocate %d bytes", len(c), label, v, alloc), hlib.ZList(c))
+				}
+				continue
+			}
+			ok = false
+			h.kept["alloc-unexplained"]++
+			if h.kept["alloc-unexplained"] <= 5 {
+				h.o.Violate(-1, "allocation-out-of-proportion", "", fmt.Sprintf("a %d-byte %s body (protocol %d, op %d, header flags %d) whose 4 bytes at offset %d are set to %d made parseFrame allocate %d bytes", len(c), label, proto, op, hflags, off, v, alloc), hlib.ZList(c))
+			}
+			return false // one concrete input is enough; further windows of this body could ask for much more
+		}
+	}
+	return ok
+}
+
 func measureAlloc(f func()) uint64 {
 	var a, b runtime.MemStats
 	runtime.GC()
@@ -406,6 +450,41 @@ func main() {
 		"-1, 0, n-1, n+1, 2^15, 2^31-1, random byte flips/insertions/deletions, random bodies per opcode, rows bodies scanned past their end, " +
 		"(type, bytes) pairs for Unmarshal likewise, type strings from two grammars with all prefixes; a case is non-trivial when the input is non-empty; " +
 		"a sample (every prefix of selected frames, 1 in 40 of the rest) is emitted as Coq cases, the rest is monitor-only"
+
+	// ---- allocation in proportion to the input, first: count fields of 10^6 and 4*10^6 on small bodies -------
+	if o.Only < 0 {
+		ar := hlib.NewRng(o.Seed + 977)
+		ag := &c04lib.Gen{R: ar}
+		safe := true
+		for v := 1; v <= 5; v++ {
+			for kind := 0; kind < c04lib.NKinds; kind++ {
+				resp := ag.ResponseOfKind(v, kind)
+				env := ag.Envelope(v)
+				body := c04lib.EncodeBody(v, env, resp)
+				if len(body) > 100 || (o.Scale == 1 && (kind+v)%2 == 0) {
+					continue
+				}
+				if !h.allocSweep(resp.Describe(), v, 0x80|v, env.Flags(), resp.Op, body) {
+					safe = false
+				}
+			}
+		}
+		// the smallest rows frames: flags, column count, (row count)
+		for _, cc := range []int{1000, 1000000, 4000000} {
+			b := append(append(c04lib.EncInt(2), c04lib.EncInt(0)...), c04lib.EncInt(cc)...)
+			b = append(b, c04lib.EncInt(0)...)
+			alloc := allocDelta(func() { c04lib.Parse(4, 0x84, 0, c04lib.OpResult, b) })
+			if alloc > uint64(64*len(b)+4<<20) {
+				safe = false
+				o.Violate(-1, "allocation-out-of-proportion", "", fmt.Sprintf("a %d-byte RESULT rows body claiming %d columns made parseFrame allocate %d bytes", len(b), cc, alloc), hlib.ZList(b))
+			}
+		}
+		if !safe {
+			o.Extra["sweep_not_run"] = "an allocation out of proportion was found at a site other than the known ones; the dense sweep (with 2^31-1 in every count field) was not run"
+			o.Finish("From GocqlV Require Import Lib.Base C04.Model C04.Spec C04.Corr C05.Model C05.Corr.", "C05.Corr.case", "C05.Corr.run")
+			return
+		}
+	}
 
 	// ---- frames -------------------------------------------------------------------------------
 	// quick: every family in two or three of the five versions; thorough: ten rounds of everything
